@@ -950,6 +950,10 @@ class VizierServicer(vizier_service_pb2_grpc.VizierServiceServicer):
             vector_value = trial_metric_id_to_value[metric_id]
           objective_vector.append(vector_value)
 
+        # A trial whose objective is not a number is neither better nor worse
+        # than any other trial; it must not be reported as optimal.
+        if np.any(np.isnan(objective_vector)):
+          continue
         considered_trials.append(trial)
         considered_trial_objective_vectors.append(objective_vector)
 
